@@ -48,6 +48,10 @@ def init_ops(cfg):
         ops += [("symlink", "d3", "only-a-link", "../d1/a"), ("mkdir", "d4", "only/an/empty/dir")]
     elif cfg.ndisks >= 3:
         ops += [("write", "d3", "dir/c", 3000, 0), ("write", "d3", ".hid", 10, 0)]
+        if cfg.tag == "hole":
+            # the disk that will sit AFTER the position hole also holds what has no blocks: empty files, links, empty directories
+            ops += [("write", "d3", "sub/zero", 0, 0), ("symlink", "d3", "sl3", "dir/c"), ("hardlink", "d3", "sub/hl3", "dir/c"),
+                    ("mkdir", "d3", "sub/ed3/deep")]
     if cfg.ndisks >= 4 and cfg.tag != "sparse":
         ops += [("write", "d4", "x/y/z", 4096, 0)]
     ops.append(("cmd", "sync"))
@@ -328,6 +332,7 @@ def bfs_collect(ctx, ex, on_violation):
     for depth in range(1, ex.depth + 1):
         jobs = [(saved, hist, op) for saved, hist, info in frontier for op in ex.alphabet_fn(hist, info)]
         nxt = []
+        level, level_sync = {}, {}
         done = 0
         for job, r in par.pmap(X._job_global, X.make_jobs(ex, jobs), deadline=ctx.deadline):
             job = job[3:]
@@ -336,14 +341,21 @@ def bfs_collect(ctx, ex, on_violation):
             hist = job[1] + [job[2]]
             for v in r["viols"]:
                 on_violation(v, hist)
+            # (completion order is not fixed: a class is represented by its smallest history of this depth)
             if r["info"].get("synced") and r["canon"] not in seen_sync:
-                seen_sync.add(r["canon"])
-                out.append((r["saved"], hist))
+                cur = level_sync.get(r["canon"])
+                if cur is None or repr(hist) < repr(cur[1]):
+                    level_sync[r["canon"]] = (X.intern_saved(r["saved"]), hist)
             if r["canon"] in seen:
                 continue
-            seen.add(r["canon"])
-            ex.states += 1
-            nxt.append((X.intern_saved(r["saved"]), hist, r["info"]))
+            cur = level.get(r["canon"])
+            if cur is None or repr(hist) < repr(cur[1]):
+                level[r["canon"]] = (X.intern_saved(r["saved"]), hist, r["info"])
+        seen_sync.update(level_sync)
+        out.extend(sorted(level_sync.values(), key=lambda t: repr(t[1])))
+        seen.update(level)
+        ex.states += len(level)
+        nxt.extend(level.values())
         if done < len(jobs):
             ctx.cap("%s: deadline in phase 1 at depth %d" % (ex.label, depth))
             break
